@@ -101,8 +101,11 @@ BUMP6 = _f([[0, 1], [1, 6], [2, 1], [3, 4], [4, 2], [5, 0]])
 # two exactly linear arms: the global simplifier stops at 3 points for every threshold, so min_point_rdp takes its fixed-size fall-back
 ELBOW9 = _f([[i, v] for i, v in enumerate([16, 13, 10, 7, 4, '3.5', 3, '2.5', 2])])
 
+# 4 points on which the farthest interior point from the chord P0->P3 (index 1) differs from the farthest one from the chord P1->P3 (index 2)
+CHORD4 = _f([[0, 0], [1, 5], [2, '4.9'], [3, 0]])
 
-SPECIAL_CURVES = dict(elbow9=ELBOW9, zigzag=ZIGZAG, tie7=TIE7, bump6=BUMP6, dip5=DIP5, lm_cycle=LM_CYCLE, lm_cycle13=LM_CYCLE13)
+
+SPECIAL_CURVES = dict(chord4=CHORD4, elbow9=ELBOW9, zigzag=ZIGZAG, tie7=TIE7, bump6=BUMP6, dip5=DIP5, lm_cycle=LM_CYCLE, lm_cycle13=LM_CYCLE13)
 
 
 def get_curve(ref):
